@@ -126,7 +126,9 @@ func (fr *Frame) callDynamic(x ssa.CallInstruction, f Term, args []Val, st *Stat
 		for _, cl := range vc.ct.CallSites[tname] {
 			g := fr.evalCallSite(cl, f, args, st)
 			vc.callCount++
+			vc.curClauseProps = cl.Props
 			vc.Oblige("callsite", fmt.Sprintf("%s#%d.%s", tname, vc.callCount, cl.Label), pos, st, g, cl.Src)
+			vc.curClauseProps = nil
 		}
 	}
 	// pure callbacks (A-PURE): conditions and predicates are uninterpreted functions
@@ -343,6 +345,14 @@ func (fr *Frame) bindLocal(cl *Clause, cp ClauseParam, st *State) Val {
 				vc.dry--
 				return TV(t)
 			}
+		}
+	}
+	for _, fv := range top.fn.FreeVars {
+		if fv.Pos() == pos && fv.Name() == cp.Name {
+			vc.dry++
+			t := top.locLoad(top.asLoc(top.val(fv), pointee(fv.Type())), st, token.NoPos)
+			vc.dry--
+			return TV(t)
 		}
 	}
 	fail("call-site clause %s: cannot bind %s", cl.Label, cp.Name)
